@@ -534,13 +534,17 @@ func SortedKeys[V any](m map[string]V) []string {
 }
 
 // Export exports the application state as a genesis (must be called between blocks).
-func (c *Chain) Export() (appState []byte, err error) {
+func (c *Chain) Export() (appState []byte, err error) { return c.ExportMode(false) }
+
+// ExportMode exports like `panacead export` (forZeroHeight=false) or like
+// `panacead export --for-zero-height`.
+func (c *Chain) ExportMode(forZeroHeight bool) (appState []byte, err error) {
 	defer func() {
 		if r := recover(); r != nil {
 			err = fmt.Errorf("PANIC in export: %v", r)
 		}
 	}()
-	exp, err := c.App.ExportAppStateAndValidators(false, nil, nil)
+	exp, err := c.App.ExportAppStateAndValidators(forZeroHeight, nil, nil)
 	if err != nil {
 		return nil, err
 	}
